@@ -128,7 +128,7 @@ class Check:
             inconclusive.append(o)
             self.log('counterexample of %s did not reproduce on the real code -> inconclusive' % o.name, info.get('why', ''))
           continue
-        key = o.meta.get('finding_key', o.name)
+        key = o.meta.get('finding_key') or o.name
         kf = self._known(key)
         if kf is not None:
           known_hits.append((key, kf))
@@ -155,7 +155,7 @@ class Check:
             except Exception as ex:
               reproduced, info = False, {'why': 'witness search crashed: %r' % (ex,)}
           if reproduced and info.get('note', '').find('solver model') < 0:
-            key = o.meta.get('finding_key', o.name)
+            key = o.meta.get('finding_key') or o.name
             kf = self._known(key)
             if kf is not None:
               known_hits.append((key, kf))
